@@ -89,6 +89,21 @@ fn catalogue(k: usize, dead_session: Option<u32>) -> Vec<Fault> {
         Fault { kind: "cancel-unknown", content: "<cancel sendid=\"never-sent\"/>".into(), expect: Expect::Nothing, aborts_block: Some(false) },
         Fault { kind: "cancel-bad-expr", content: "<cancel sendidexpr=\"nosuchvar\"/>".into(), expect: Expect::AtMost, aborts_block: None },
         Fault { kind: "foreach-noncollection", content: "<foreach array=\"x\" item=\"it\"><log expr=\"it\"/></foreach>".into(), expect: Expect::Must("error.execution"), aborts_block: Some(true) },
+        Fault { kind: "modulus-by-zero", content: "<assign location=\"x\" expr=\"5 % 0\"/><assign location=\"x\" expr=\"1\"/>".into(), expect: Expect::AtMost, aborts_block: None },
+        Fault { kind: "modulus-by-zero-var", content: "<assign location=\"x\" expr=\"x % (x - x)\"/><assign location=\"x\" expr=\"1\"/>".into(), expect: Expect::AtMost, aborts_block: None },
+        Fault { kind: "modulus-by-zero-float", content: "<assign location=\"x\" expr=\"5.5 % 0\"/><assign location=\"x\" expr=\"1\"/>".into(), expect: Expect::AtMost, aborts_block: None },
+        Fault { kind: "modulus-overflow", content: "<assign location=\"x\" expr=\"(0 - 9223372036854775807 - 1) % (0 - 1)\"/><assign location=\"x\" expr=\"1\"/>".into(), expect: Expect::AtMost, aborts_block: None },
+        Fault { kind: "divide-by-zero", content: "<assign location=\"x\" expr=\"5 / 0\"/><assign location=\"x\" expr=\"1\"/>".into(), expect: Expect::AtMost, aborts_block: None },
+        Fault { kind: "divide-zero-by-zero", content: "<assign location=\"x\" expr=\"0 / 0\"/><assign location=\"x\" expr=\"1\"/>".into(), expect: Expect::AtMost, aborts_block: None },
+        Fault { kind: "divide-overflow", content: "<assign location=\"x\" expr=\"(0 - 9223372036854775807 - 1) / (0 - 1)\"/><assign location=\"x\" expr=\"1\"/>".into(), expect: Expect::AtMost, aborts_block: None },
+        Fault { kind: "multiply-overflow", content: "<assign location=\"x\" expr=\"9223372036854775807 * 9223372036854775807\"/><assign location=\"x\" expr=\"1\"/>".into(), expect: Expect::AtMost, aborts_block: None },
+        Fault { kind: "literal-overflow", content: "<assign location=\"x\" expr=\"99999999999999999999999\"/><assign location=\"x\" expr=\"1\"/>".into(), expect: Expect::AtMost, aborts_block: None },
+        Fault { kind: "index-out-of-range", content: "<assign location=\"x\" expr=\"arr[99]\"/><assign location=\"x\" expr=\"1\"/>".into(), expect: Expect::AtMost, aborts_block: None },
+        Fault { kind: "index-negative", content: "<assign location=\"x\" expr=\"arr[0 - 1]\"/><assign location=\"x\" expr=\"1\"/>".into(), expect: Expect::AtMost, aborts_block: None },
+        Fault { kind: "index-fraction", content: "<assign location=\"x\" expr=\"arr[1.5]\"/><assign location=\"x\" expr=\"1\"/>".into(), expect: Expect::AtMost, aborts_block: None },
+        Fault { kind: "index-huge", content: "<assign location=\"x\" expr=\"arr[9223372036854775807]\"/><assign location=\"x\" expr=\"1\"/>".into(), expect: Expect::AtMost, aborts_block: None },
+        Fault { kind: "assign-index-out-of-range", content: "<assign location=\"arr[99]\" expr=\"7\"/><assign location=\"arr\" expr=\"[1, 2, 3]\"/>".into(), expect: Expect::AtMost, aborts_block: None },
+        Fault { kind: "assign-index-negative", content: "<assign location=\"arr[0 - 1]\" expr=\"7\"/><assign location=\"arr\" expr=\"[1, 2, 3]\"/>".into(), expect: Expect::AtMost, aborts_block: None },
         Fault { kind: "raise-odd-name", content: "<raise event=\"error.platform.almostcancel\"/>".into(), expect: Expect::Nothing, aborts_block: Some(false) },
     ];
     if let Some(d) = dead_session {
